@@ -36,6 +36,8 @@ package format
 //@   ensures#reject err != nil ==> s == nil                                                                [C07 C14 C16]
 //@   ensures#valid err == nil ==> s != nil && isvalid(s.Type) && (forall j in 0..len(s.Args) :: isvalid(s.Args[j]))   [C07 C14 C16]
 //@   ensures#progress err == nil ==> len(r.r.$rem) < len(old(r.r.$rem)) && issuffix(r.r.$rem, old(r.r.$rem))          [C07 C14 C16]
+//@   ensures#marker err == nil ==> lastret("splitArgs",1,0) == "->" && len(lastret("splitArgs",1,1)) >= 1                          [C03 C07 C16]
+//@   ensures#fields err == nil ==> s.Type == lastret("splitArgs",1,1)[0] && len(s.Args) == len(lastret("splitArgs",1,1)) - 1 && (forall j in 0..len(s.Args) :: s.Args[j] == lastret("splitArgs",1,1)[j + 1])   [C03 C07 C16]
 //@   ensures#argsnonnil err == nil ==> !isnil(s.Args)                                                              [C16]
 //@   ensures#suffix issuffix(r.r.$rem, old(r.r.$rem))
 //@   ensures#wrapopen lasterr("ReadBytes",1) != nil ==> err != nil && wraps(err, lasterr("ReadBytes",1))        [C13 C14]
@@ -61,8 +63,8 @@ package format
 //@   ensures#wrapstanza lasterr("ReadStanza",1) != nil ==> err != nil && wraps(err, lasterr("ReadStanza",1))     [C13 C14]
 //@   ensures#ok err == nil ==> h != nil && payload != nil && len(h.MAC) == 32       [C07 C03]
 //@   ensures#stanzas err == nil ==> (forall j in 0..len(h.Recipients) :: h.Recipients[j] != nil)
-//@   ensures#payload err == nil ==> issuffix(payload.$rem, old(input.$rem))           [C07 C12]
-//@   ensures#payloadid err == nil ==> (id(payload) == id(input) || fresh(payload))
+//@   ensures#payload err == nil ==> issuffix(payload.$rem, old(input.$rem))           [C07 C12 C01]
+//@   ensures#payloadid err == nil ==> (id(payload) == id(input) || fresh(payload))   [C20]
 //@   fresh h when err == nil
 //@   fresh h.Recipients when err == nil && len(h.Recipients) > 0
 //@   modifies input.$rem, input.$bufd, input.$under.$rem
@@ -92,6 +94,8 @@ package format
 
 //@ func (*WrappedBase64Encoder).Write(w, p) (n, err)
 //@   requires w.enc != nil
+//@   call Write#1 requires arg0 == w.enc && same(arg1, p)                                                                           [C01 C08 C12]
+//@   ensures#delegates calls("Write",1) == old(calls("Write",1)) + 1 && n == lastret("Write",1,0) && err == lasterr("Write",1)        [C01 C08 C12 C13]
 //@   assumes#acc err == nil ==> n == len(p) && w.$acc == cat(old(w.$acc), bytes(p))
 //@   assumes#frame w.dst == old(w.dst) && w.$enc == old(w.$enc) && w.$out0 == old(w.$out0) && w.enc == old(w.enc) && w.written >= old(w.written) && hasprefix(w.dst.$out, old(w.dst.$out))
 //@   modifies w.$acc, w.written, w.dst.$out, w.buf.$bbuf
@@ -99,6 +103,7 @@ package format
 
 //@ func (*WrappedBase64Encoder).Close(w) (err)
 //@   requires w.enc != nil
+//@   ensures#delegates calls("Close",1) == old(calls("Close",1)) + 1 && err == lasterr("Close",1)                                    [C08 C13]
 //@   assumes#text err == nil ==> w.dst.$out == cat(w.$out0, wrapcols(0, encof(w.$enc, w.$acc))) && w.written == len(encof(w.$enc, w.$acc)) && w.written >= 0
 //@   assumes#frame w.dst == old(w.dst) && w.enc == old(w.enc) && w.written >= old(w.written) && w.$acc == old(w.$acc) && w.$enc == old(w.$enc) && w.$out0 == old(w.$out0) && hasprefix(w.dst.$out, old(w.dst.$out))
 //@   modifies w.written, w.dst.$out, w.buf.$bbuf
